@@ -5,8 +5,8 @@ cd "$(dirname "$0")"
 export CARGO_NET_OFFLINE=true
 mkdir -p .locks evidence replays .logs
 # Gen/ is regenerated from /repo before the Coq build so that generated obligations are current
-for g in tools/gen/*.py; do [ -f "$g" ] && python3 "$g" --repo /repo --out coq/Gen || true; done
+for g in tools/gen/*.py; do [ -f "$g" ] && python3 "$g" --repo "$(cd .. && pwd)/repo" --out coq/Gen || true; done
 (cd coq && rm -f _CoqProject Makefile.coq Makefile.coq.conf && timeout 3000 ./mk.sh)
-[ -f harness/Cargo.lock ] || cp /repo/Cargo.lock harness/Cargo.lock
-(cd harness && RUSTFLAGS="--cfg rip_verif" CARGO_TARGET_DIR=/verif/harness/target timeout 3000 cargo build --offline --bins)
+[ -f harness/Cargo.lock ] || cp ../repo/Cargo.lock harness/Cargo.lock
+(cd harness && RUSTFLAGS="--cfg rip_verif" timeout 3000 cargo build --offline --bins)
 echo "setup ok"
